@@ -241,4 +241,29 @@ def norm : Expr → Expr := normWith BinOp.omitSame
 /-- the specification's normal form: only operators that are associative in EXPRESS are re-associated -/
 def normSpec : Expr → Expr := normWith BinOp.assocInExpress
 
+/-- "up to the splitting of string literals": adjacent simple string literals in a (left-nested) chain of `+` are joined.
+Applied after `normSpec` to both sides by the oracle. -/
+def joinStr : Expr → Expr
+  | .bin o a b =>
+    let a' := joinStr a
+    let b' := joinStr b
+    if o = .plus then
+      match a', b' with
+      | .lit (.str s1), .lit (.str s2) => .lit (.str (s1 ++ s2))
+      | .bin .plus x (.lit (.str s1)), .lit (.str s2) => .bin .plus x (.lit (.str (s1 ++ s2)))
+      | _, _ => .bin o a' b'
+    else .bin o a' b'
+  | .neg a => .neg (joinStr a)
+  | .not a => .not (joinStr a)
+  | .dot a g => .dot (joinStr a) g
+  | .group a g => .group (joinStr a) g
+  | .index a i => .index (joinStr a) (joinStr i)
+  | .range a i j => .range (joinStr a) (joinStr i) (joinStr j)
+  | .query v s c => .query v (joinStr s) (joinStr c)
+  | .call g args => .call g (joinStr args)
+  | .aggr items => .aggr (joinStr items)
+  | .cons e t => .cons (joinStr e) (joinStr t)
+  | .rep e c t => .rep (joinStr e) (joinStr c) (joinStr t)
+  | e => e
+
 end StepModel.Express
